@@ -289,3 +289,20 @@ where
         (self.x.len(), self.s.len())
     }
 }
+
+// ---------------------------------------------------------------------------
+// verification hooks (feature `verif-hooks`): add-only call-through wrapper
+// for the private free function of this file.  No behaviour is added.
+// ---------------------------------------------------------------------------
+#[cfg(feature = "verif-hooks")]
+pub mod verif_hooks_variables {
+    use super::*;
+
+    pub fn shift_to_cone_interior<T: FloatT>(
+        z: &mut [T],
+        cones: &mut CompositeCone<T>,
+        pd: PrimalOrDualCone,
+    ) {
+        _shift_to_cone_interior(z, cones, pd)
+    }
+}
